@@ -335,8 +335,6 @@ class Full(_AbstractMassMatrix):
 
 
 class BFGS(_AbstractMassMatrix):
-    ms = []
-    gs = []
     succesful_updates = 0
     attempted_updates = 0
 
@@ -364,6 +362,10 @@ class BFGS(_AbstractMassMatrix):
         """
 
         self.greedy = greedy
+
+        # The queue of pending updates belongs to this object (as class attributes the
+        # lists were shared by all BFGS objects)
+        self.ms, self.gs = [], []
 
         if rng is not None:
             self.rng = rng
@@ -468,8 +470,8 @@ class BFGS(_AbstractMassMatrix):
         for m, g in zip(self.ms, self.gs):
             self._update(m, g)
 
-        ms = []
-        gs = []
+        # Empty the queue (not local names): the updates must not be applied again
+        self.ms, self.gs = [], []
 
     def _update(self, m, g):
         """
